@@ -38,7 +38,8 @@ fn main() {
         }
         "c18" => c18::run(seed, cases, &out, &arg(&args, "--workdir").expect("--workdir")),
         "c04rt" => c04rt::run(seed, cases, &out),
-        "c16-gen" => c16::gen(seed, cases, &arg(&args, "--dir").expect("--dir")),
+        "c16-gen" => c16::gen(seed, cases, &arg(&args, "--dir").expect("--dir"), arg(&args, "--repo").as_deref()),
+        "c16-history" => c16::history(seed, cases, &arg(&args, "--dir").expect("--dir"), &arg(&args, "--out").expect("--out")),
         "codegen" => c16::codegen(&args),
         "buildscript" => c16::buildscript(&args),
         "exit-on-error" => c16::exit_on_error(&args),
@@ -51,6 +52,7 @@ fn main() {
                 ("C11", _) => c11::replay(&rec),
                 ("C12", _) => c12::replay(&rec),
                 ("C15", "compile") => c15::replay(&rec),
+                ("C16", "history") => c16::replay_history(&rec),
                 ("C18", _) => c18::replay(&rec, &arg(&args, "--workdir").unwrap_or_else(|| "/tmp".into())),
                 ("C04", "runtime") => c04rt::replay(&rec),
                 _ => {
